@@ -689,6 +689,10 @@ from . import c11 as _c11      # noqa: E402
 send_packet_strict = _c11._mk_send_packet(
     'C06', ensures=[('strict-kex:send-sequence-number-restarts-at-NEWKEYS-and-only-there', _c11.strict_send_seq_reset)],
     always=[])
+# no clause of this view talks about padding, so the finite case split over (block size, header length) that keeps
+# the padding arithmetic of C02 / C11 linear is not needed: block size and header length stay symbolic (any value
+# send_inv allows: 8..128, {1, 5}) - one general proof instead of four instances, a quarter of the paths
+send_packet_strict.cases = None
 
 
 # ------------------------------------------------------------------------------------------------ kex range closes at OUR NEWKEYS
@@ -732,6 +736,30 @@ if _nk is not None:
                   'model_timeout_ms', 'confirm_attempts'):
         if hasattr(_nk, _attr):
             setattr(send_newkeys_gate, _attr, getattr(_nk, _attr))
+
+
+# generation order (cost only, no effect on what is generated): the sequence-heavy feasibility queries of the userauth
+# handlers leave z3 markedly slower for the rest of the process (measured: send_packet 13 s alone, 75 s after
+# _process_userauth_request; a single 2^32-length query that times out is enough), so the two large path enumerations
+# are generated first
+for _sp in [v_ for v_ in (globals().get('send_newkeys_gate'), send_packet_strict) if v_ is not None]:
+    if _sp in Spec.registry:
+        Spec.registry.remove(_sp)
+        Spec.registry.insert(0, _sp)
+
+
+# per-path CPython cross-check (a sampling sanity check of the engine's model of Python, not a proof step): witness
+# search budgets for the functions whose path conditions are sequence-heavy - a witness that is not found within 2 s
+# was not found within the default 6 s either (measured), the sample is then counted as `no-model`
+for _sp in (process_userauth_request, process_userauth_banner, process_debug):
+    _sp.model_timeout_ms = 2000
+# branch pruning only (an undecided branch is kept): the 2^32-length slices of the user name / service / method
+# strings make a few feasibility queries run into the default 2 s budget without deciding anything
+process_userauth_request.feasible_timeout_ms = 300
+if globals().get('send_newkeys_gate') is not None:
+    # the same function is cross-checked under C02 and C11 (200 paths, witnesses are rarely found): small sample here
+    send_newkeys_gate.crosscheck_limit = 2
+    send_newkeys_gate.model_timeout_ms = 1500
 
 
 def extra_checks(tier, seed):
